@@ -217,24 +217,29 @@ def check(p, ast, ctx):
     if not bad:
         return
     placement, auto, wrapper = ctx
-    # smallest sub-expression that still shows a difference in the same context
-    small = ast
+    # smallest sub-expression that still shows a difference in the same escaping context (in any placement)
+    small, sctx = ast, ctx
     while True:
+        found = False
         for _, child in G.subnodes(small):
-            cb = judge(child, ctx)
-            if cb:
-                small, bad = child, cb
+            for pl in (sctx[0],) + tuple(x for x in PLACEMENTS if x != sctx[0]):
+                cb = judge(child, (pl, auto, wrapper))
+                if cb:
+                    small, sctx, bad, found = child, (pl, auto, wrapper), cb, True
+                    break
+            if found:
                 break
-        else:
+        if not found:
             break
     kinds = sorted({b[0] for b in bad})
+    cls = "flag" if kinds == ["lift-flag"] else "fold"
     kind, label, bo, vo, btsrc, vtsrc, vdata = bad[0]
     base_data = {"flag": wrapper == "flagT"} if wrapper.startswith("flag") else {}
-    p.violation(f"C08/{root_class(small)}/{effective(auto, wrapper)}/{placement}/{'+'.join(kinds)}", {
-        "msg": f"Environment(autoescape={auto}) {btsrc!r} {base_data!r} -> {bo!r} but {label}: {vtsrc!r} "
-               f"{ {k: (('Markup(%r)' % str(v)) if isinstance(v, Markup) else v) for k, v in vdata.items()} !r} -> {vo!r}"
-               f"  (found in {G.to_src(ast)!r})",
-        "autoescape": auto, "base": btsrc, "variant": vtsrc, "variant_kind": kind,
+    shown = {k: (("Markup(%r)" % str(v)) if isinstance(v, Markup) else v) for k, v in vdata.items()}
+    p.violation(f"C08/{root_class(small)}/{effective(auto, wrapper)}/{cls}", {
+        "msg": f"Environment(autoescape={auto}) {btsrc!r} {base_data!r} -> {bo!r} but {label}: {vtsrc!r} {shown!r} -> {vo!r}"
+               f"  (differing variants: {'+'.join(kinds)}; found in {G.to_src(ast)!r} as {placement})",
+        "autoescape": auto, "base": btsrc, "variant": vtsrc, "variant_kinds": kinds,
         "script": script_for(auto, btsrc, base_data, vtsrc, vdata, {"optimized": False} if kind == "noopt" else {})})
 
 
